@@ -61,7 +61,10 @@ def good_id(i: int) -> int:
 def good_datagram(i: int, ip: str):
     # a host answers each probe; its replies may come as bare V2 packets and as V3-wrapped ones (same identity)
     first = 2 + i % 2
-    return [sd.reply(v, good_id(i), ip, 6444, f"{i:032d}", good_name(i)) for v in (first, 5 - first, first)]
+    # odd-numbered hosts advertise (inside the reply) the address of host 0 instead of the one they answer from
+    # (multi-homed / NATed device): a device is still reported per RESPONDING address
+    inner_ip = ip if i % 2 == 0 else "10.2.0.10"
+    return [sd.reply(v, good_id(i), inner_ip, 6444, f"{i:032d}", good_name(i)) for v in (first, 5 - first, first)]
 
 
 def configs(tier):
